@@ -122,7 +122,26 @@ class Scheduler:
                 # a timed get on an empty queue may time out; do not let one thread spin while others can run
                 timed = [n for n, (k, q, _) in self.pending.items() if k == "tget" and not q._items]
                 cand = [n for n in timed if self.timeouts.get(n, 0) < 2 or not enabled]
-                if self.strategy == "timeout_then_workers" and "consumer" in self.pending:
+                if self.strategy == "check_then_act" and "consumer" in self.pending:
+                    # the consumer runs eagerly; right after it has passed a pure check (empty(), qsize(), is_alive()) it is held at its
+                    # next request while every other thread runs as far as it can: the window of a check-then-act race
+                    if getattr(self, "_held", False):
+                        others = [n for n in enabled if n != "consumer"]
+                        if others:
+                            enabled = others
+                        else:
+                            self._held = False
+                    if not getattr(self, "_held", False) and "consumer" in (enabled + cand):
+                        k, q, _ = self.pending["consumer"]
+                        if k == "sync":
+                            self._held = True
+                        if "consumer" in cand and "consumer" not in enabled:
+                            enabled = enabled + ["consumer"]
+                        if self.rng.random() < 0.85:
+                            self.granted = "consumer"
+                            self.cv.notify_all()
+                            continue
+                elif self.strategy == "timeout_then_workers" and "consumer" in self.pending:
                     # run the consumer eagerly until one of its timed gets fires on an empty queue, then hold it
                     # at its next scheduling point (e.g. an is_alive() poll) while all other threads run as far
                     # as they can
